@@ -33,7 +33,7 @@ ASSUMPTIONS = ['virtual clock: tornado_sleep(0.1) takes exactly 0.1 s, so latene
 BUDGET = {'quick': 240, 'thorough': 1500}
 CASE_TIMEOUT = 180          # a LIVE history (real daemon, real grace periods) takes 20-60 s of wall clock
 
-SIGS = [15, 2, 3, 10, 1]
+SIGS = [15, 2, 3, 10, 1, 35, 50]          # incl. real-time signals (no name in Python's signal module)
 GTS = [0, .1, .25, .3, .7, 1.0, 2.0]
 CAUSES = ['stop', 'restart', 'decr', 'reload', 'reloadseq', 'reloadterm', 'kill', 'kill_pid', 'kill_over',
           'max_age', 'rm', 'quit',
@@ -274,6 +274,15 @@ def _history(w, h, res):
         if e[1] == 'signal' and e[4] == 'circus':
             eps.setdefault(e[2], []).append((e[0], e[3], e[5]))
     workers = {pid: p for pid, p in k.procs.items() if p.spawn_no}
+    # every worker the request terminates gets the stop signal in the first place
+    if cause in ('stop', 'restart', 'rm', 'quit', 'kill', 'kill_over', 'reloadterm', 'reload', 'reloadseq', 'kill_pid',
+                 'restart_x5') and w.stalled is None:
+        for pid in (victims if victims is not None else live0):
+            p_ = k.procs[pid]
+            if pid not in eps and (p_.exit_t is None or p_.exit_t > t_cause + EPS) and not (p_.cause or '').startswith(('self', 'ext')):
+                res.violation('C03/no-stop-signal-sent:' + cause, 'worker %d was running when the %s request arrived and '
+                              'was never sent any signal by the daemon (stop signal %d); it is %s now'
+                              % (pid, cause, sig, p_.state))
     judged = 0
     for pid, sigs in eps.items():
         p = k.procs[pid]
